@@ -276,6 +276,37 @@ pub fn gen_ownership(rng: &mut Rng, tier: &Tier) -> Vec<Case> {
             cases.push(c);
         }
     }
+    // a sample type whose order comparison can fail (an ordered float that rejects NaN, a comparator with a deadline):
+    // the k-th comparison of one `filter` call panics, the call is abandoned half-way, and whatever state the unwinding
+    // leaves must still own every sample exactly once — at every fill level and every k
+    for kind in ["median", "max", "min", "bounds", "cache"] {
+        for _ in 0..tier.n(40, 500) {
+            let n = rng.range(1, 6) as usize;
+            let first = if kind == "cache" { format!("cache inner=median N={} T=tracked", n) } else { format!("{} N={} T=tracked", kind, n) };
+            let mut c = vec![format!("new 1 {}", first)];
+            for _ in 0..rng.range(0, n as i64 + 2) {
+                c.push(format!("f 1 {}", rng.range(-4, 4)));
+            }
+            let copy = rng.chance(1, 3);
+            if copy {
+                c.push((if rng.chance(1, 2) { "clone 1 2" } else { "gutsrt 1 2" }).to_string());
+            }
+            c.push(format!("fp 1 {} {}", rng.range(1, n as i64 + 3), rng.range(-4, 4)));
+            c.push("live".into());
+            if rng.chance(1, 3) {
+                // (a second interrupted call on whatever the first one left behind)
+                c.push(format!("fp 1 {} {}", rng.range(1, n as i64 + 3), rng.range(-4, 4)));
+            }
+            c.push("drop 1".into());
+            c.push("live".into());
+            if copy {
+                c.push(format!("f 2 {}", rng.range(-4, 4)));
+                c.push("drop 2".into());
+                c.push("live".into());
+            }
+            cases.push(c);
+        }
+    }
     cases
 }
 
@@ -328,6 +359,19 @@ pub fn gen_ownership_small(rng: &mut Rng) -> Vec<Case> {
             c.push("drop 3".into());
             c.push("live".into());
             cases.push(c);
+        }
+        // a call abandoned by a panicking sample comparison, at every position of the comparison
+        if kind == "median" || kind == "max" || kind == "min" || kind == "bounds" {
+            for k in 1..=4 {
+                let mut c = vec![format!("new 1 {} N=3 T=tracked", kind)];
+                c.push("f 1 2".into());
+                c.push("f 1 -1".into());
+                c.push(format!("fp 1 {} 1", k));
+                c.push("drop 1".into());
+                c.push("live".into());
+                cases.push(c);
+            }
+            cases.push(vec![format!("new 1 {} N=1 T=tracked", kind), "fp 1 1 3".into(), "drop 1".into(), "live".into()]);
         }
     }
     cases
